@@ -249,10 +249,17 @@ static bool upipe_rtp_pcm_unpack_handle(struct upipe *upipe, struct uref *uref,
         return true;
     }
 
+    /* the block may be made of several segments */
     const uint8_t *src = NULL;
     int32_t *dst = NULL;
     int size = -1;
-    uref_block_read(uref, 0, &size, &src);
+    if (unlikely(!ubase_check(uref_block_merge(uref, uref->ubuf->mgr, 0, -1)) ||
+                 !ubase_check(uref_block_read(uref, 0, &size, &src)))) {
+        upipe_warn(upipe, "could not read uref, dropping samples");
+        ubuf_free(ubuf);
+        uref_free(uref);
+        return true;
+    }
     ubuf_sound_write_int32_t(ubuf, 0, -1, &dst, 1);
 
     samples *= upipe_rtp_pcm_unpack->channels;
